@@ -6,7 +6,7 @@ import itertools
 import math
 import warnings
 
-from .common import Suite, hx, merge
+from .common import Oracle, Suite, hx, merge
 
 GEN_UNITS = ["Rng", "Handlers", "B64"]
 LEAN_TARGETS = ["PasslibVerif.Props.C06"]
@@ -149,7 +149,70 @@ def correspond(ctx):
                 exact = next(L for L in itertools.count() if len(cs) ** L >= 2 ** e)
                 return str(exact if exact <= got <= exact + 1 else got)
             s_len.add(f"rng minlen {len(cs)} {e}", gs, "generate_secret")
-    return merge(s_help, s_salt, s_len, exhaustive=False)
+    o_cfg = Oracle(ctx, "declared-space-guards")
+    guards_oracle(ctx, o_cfg)
+    return merge(s_help, s_salt, s_len, o_cfg, exhaustive=False)
+
+
+def guards_oracle(ctx, o, first_only=False):
+    """real-code checks of what keeps the declared space honest: a configuration can never pin a salt; a symbol set with repeated symbols
+    (which would skew the draw and overstate the entropy) is refused on EVERY call"""
+    import warnings
+
+    warnings.simplefilter("ignore")
+    import passlib.pwd as pwd
+    from passlib.context import CryptContext
+
+    fails = []
+
+    def chk(tag, ok, inp, observed=None, expected=None):
+        o.check(tag, ok, inp, observed, expected)
+        if not ok:
+            fails.append({"input": inp, "observed": observed, "expected": expected})
+
+    for key in ("md5_crypt__salt", "all__salt", "admin__md5_crypt__salt", "sha256_crypt__salt", "admin__all__salt"):
+        for val in ("abcdefgh", b"abcdefgh", bytearray(b"abcdefgh"), 12345678, ["a"], None):
+            for how in ("constructor", "update", "copy", "load-dict"):
+                inp = {"op": "context-salt", "key": key, "value": repr(val), "via": how}
+                try:
+                    if how == "constructor":
+                        c = CryptContext(["md5_crypt", "sha256_crypt"], **{key: val})
+                    elif how == "update":
+                        c = CryptContext(["md5_crypt", "sha256_crypt"])
+                        c.update(**{key: val})
+                    elif how == "copy":
+                        c = CryptContext(["md5_crypt", "sha256_crypt"]).copy(**{key: val})
+                    else:
+                        c = CryptContext(["md5_crypt", "sha256_crypt"])
+                        c.load({"schemes": ["md5_crypt", "sha256_crypt"], key: val})
+                except (KeyError, TypeError, ValueError):
+                    chk("context-salt-refused", True, inp, "refused", "refused")
+                    continue
+                # accepted: then it must at least not pin the salt
+                cat = "admin" if key.startswith("admin__") else None
+                hs = {c.hash("pw", category=cat) for _ in range(4)}
+                chk("context-salt-refused", len(hs) == 4 and val is None, inp, f"accepted; {len(hs)} distinct hashes out of 4", "refused (a configuration must not fix the salt)")
+        if fails and first_only:
+            return fails
+    for bad in ("aabc", "abca", "zz", ("a", "b", "a"), ("x", "x"), "ab" * 3):
+        for attempt in range(3):
+            inp = {"op": "duplicate-symbols", "symbols": repr(bad), "attempt": attempt + 1}
+            try:
+                if isinstance(bad, str):
+                    r = pwd.genword(entropy=40, chars=bad)
+                else:
+                    r = pwd.genphrase(entropy=40, words=bad)
+                chk("duplicate-symbols-refused", False, inp, "accepted: " + repr(r)[:60], "ValueError on every call")
+            except ValueError:
+                chk("duplicate-symbols-refused", True, inp, "refused", "refused")
+        if fails and first_only:
+            return fails
+    for N in range(2, 95, 3 if not ctx.thorough else 1):
+        chars = "".join(chr(33 + i) for i in range(N))
+        for e in (1, 7, 40, 64, 128, 199):
+            L = pwd.WordGenerator(chars=chars, entropy=e).length
+            chk("genword-entropy", N ** L >= 2 ** e, {"op": "genword-entropy", "alphabet_size": N, "entropy": e}, L, "N^L >= 2^entropy")
+    return fails
 
 
 # ------------------------------------------------------------------------------------------
@@ -228,6 +291,9 @@ def search(ctx, broken, seeds):
                 continue
             if len(salt) != size or (chars is not None and any(c not in chars for c in salt)):
                 return {"input": {"op": "salt", "hasher": name}, "observed": repr(salt), "expected": f"{size} symbols of {chars!r}"}
+    fails = guards_oracle(ctx, Oracle(ctx, "search"), first_only=True)
+    if fails:
+        return fails[0]
     # a context never lets a configuration pin a salt
     from passlib.context import CryptContext
 
